@@ -6,6 +6,7 @@ package main
 import (
 	"encoding/json"
 	"fmt"
+	"strings"
 	"time"
 
 	gmsl "github.com/matrix-org/gomatrixserverlib"
@@ -80,6 +81,15 @@ func (w *world) concreteEvent(e AbsEv, ts time.Time) []byte {
 	if v := viaUser(e.Via); v != "" {
 		content["join_authorised_via_users_server"] = v
 	}
+	// content that must have no effect on the handshake
+	switch w.sc.Extra {
+	case "tpi":
+		content["third_party_invite"] = map[string]interface{}{"display_name": "c15",
+			"signed": map[string]interface{}{"mxid": sender, "token": "c15token", "signatures": map[string]interface{}{}}}
+	case "unknown":
+		content["org.example.c15"] = map[string]interface{}{"membership": "ban", "n": 1}
+		content["displayname"] = "c15"
+	}
 	skey := stateKeyFor(e.Skey, sender)
 	var authEvs []gmsl.PDU
 	if e.Auth != "nocreate" {
@@ -109,14 +119,31 @@ func (w *world) concreteEvent(e AbsEv, ts time.Time) []byte {
 		panic(fmt.Sprintf("c15: cannot build abstract event %+v: %v", e, err))
 	}
 	js := ev.JSON()
+	R, O := servers["R"], servers["X"]
+	if S == O {
+		O = servers["J"]
+	}
 	switch e.Sig {
 	case "none":
 		js, err = sjson.SetRawBytes(js, "signatures", []byte(`{}`))
 	case "tampered":
 		js, err = sjson.SetBytes(js, "depth", w.depth+7)
+	case "two_keys": // a second key ID of the same server with a signature that verifies under no key
+		js, err = sjson.SetBytes(js, "signatures."+escapeDots(string(S.name))+".ed25519:c15old", strings.Repeat("A", 86))
+	case "plus_other":
+		js = ev.Sign(string(O.name), O.keyID, O.priv).JSON()
+	case "presigned":
+		js = ev.Sign(string(R.name), R.keyID, R.priv).JSON()
+	case "presigned_bad":
+		js = ev.Sign(string(R.name), R.keyID, R.wrong).JSON()
 	}
 	if err != nil {
 		panic(err)
+	}
+	if w.sc.Extra == "unsigned" {
+		if js, err = sjson.SetRawBytes(js, "unsigned", []byte(`{"age":1234,"membership":"ban","prev_content":{"membership":"ban"}}`)); err != nil {
+			panic(err)
+		}
 	}
 	return js
 }
@@ -137,7 +164,7 @@ func (w *world) projectEvent(js []byte, kind string) AbsEv {
 		e.Mship = "missing"
 	}
 	sender := gjson.GetBytes(js, "sender").String()
-	e.Ssrv = serverClass(spec.ServerName(domainOf(sender)))
+	e.Ssrv = serverClass(spec.ServerName(domainOf(w.userOfSender(sender))))
 	sk := gjson.GetBytes(js, "state_key")
 	switch {
 	case !sk.Exists():
@@ -158,9 +185,9 @@ func (w *world) projectEvent(js []byte, kind string) AbsEv {
 	switch {
 	case !via.Exists() || via.String() == "":
 		e.Via = "none"
-	case via.String() == userA:
+	case via.String() == w.sid(userA):
 		e.Via = "local"
-	case domainOf(via.String()) == "":
+	case domainOf(w.userOfSender(via.String())) == "":
 		e.Via = "invalid"
 	default:
 		e.Via = "remote"
@@ -194,6 +221,8 @@ func (w *world) projectEvent(js []byte, kind string) AbsEv {
 	}
 	return e
 }
+
+func escapeDots(s string) string { return strings.ReplaceAll(s, ".", `\.`) }
 
 func mustJSON(v interface{}) json.RawMessage {
 	b, err := json.Marshal(v)
